@@ -291,7 +291,8 @@ def isWebsocketRequest (r : ReqEv) : Bool :=
 
 def scopeOf (cfg : Cfg) (r : ReqEv) (ws : Bool) : Scope :=
   { kind := if ws then "websocket" else "http", method := decodeAsciiUpper r.method, version := Bytes.toString r.version,
-    rawPath := (Bytes.partitionB 63 r.target).1, query := (Bytes.partitionB 63 r.target).2.2,
+    -- `raw_path` / `query_string` of the scope as HTTPStream.handle(Request) derives them from the target (expressions extracted)
+    rawPath := ReqGlue.targetRawPath r.target, query := ReqGlue.targetQuery r.target,
     headers := if cfg.rawHeaders then r.rawHeaders else r.headers }
 
 /-- handling of one `next_event()` result (one iteration of the `_handle_events` loop) -/
